@@ -23,6 +23,7 @@ def dispatch (req : Json) : Except String Json := do
   | "dataset" => handleDataset req
   | "domain" => handleDomain req
   | "jt" => handleJT req
+  | "jt_picks" => handleJTPicks req
   | "bp" => handleBP req
   | "gm_project" => handleProject req
   | "gm_datavector" => handleGMDatavector req
